@@ -155,7 +155,8 @@ def run(ctx):
     corr_dis = None
     if HAVE_COQ and model_ok:
         from props import _c09_model as M
-        corr_dis = M.correspondence(ctx, lines, traces)
+        ncorr = 250 if ctx.tier == "quick" else 6000
+        corr_dis = M.correspondence(ctx, lines[:ncorr], traces[:ncorr])
     # ---- decide (DESIGN.md §9)
     for (i, v) in failing[:3]:
         report_impl_violation(ctx, lines[i], traces[i], v, 60 if ctx.tier == "quick" else 300)
